@@ -25,8 +25,8 @@ EXECUTION_COUNTERS = ["calls_checked"]   # executions of the oracle inside the c
 RULE = ("case = configuration + request sequence, executed with two garbage fillings; non-trivial if at least one evaluator call was checked; cases with inactive entries, filters, "
         "transforms, memo hits are counted separately in monitor_counters; distinct key = (case index, personality)")
 ASSUMPTIONS = ["garbage written into inactive entries is finite", "with transforms, user-domain quantities are compared to 1e-12 relative"]
-REQUIRED = {"quick": {"calls_checked": 6000, "rows_checked": 35000, "values_checked": 60000, "inactive_entries_seen": 5000, "garbage_pairs_compared": 1500, "evaluator_arrays_snapshotted": 10000, "delivered_arrays_checked": 60000, "memo_hits": 300, "with_filters": 400, "with_transforms": 400, "split_gradient_requests": 400, "row_flags_checked": 1500, "__nontrivial__": 1500},
-            "thorough": {"calls_checked": 150000, "rows_checked": 800000, "values_checked": 1500000, "inactive_entries_seen": 120000, "garbage_pairs_compared": 40000, "evaluator_arrays_snapshotted": 250000, "delivered_arrays_checked": 1500000, "memo_hits": 8000, "with_filters": 10000, "with_transforms": 10000, "split_gradient_requests": 10000, "row_flags_checked": 30000, "__nontrivial__": 36000}}
+REQUIRED = {"quick": {"moved_gradient_request_sequences": 500, "calls_checked": 6000, "rows_checked": 35000, "values_checked": 60000, "inactive_entries_seen": 5000, "garbage_pairs_compared": 1500, "evaluator_arrays_snapshotted": 10000, "delivered_arrays_checked": 60000, "memo_hits": 300, "with_filters": 400, "with_transforms": 400, "split_gradient_requests": 400, "row_flags_checked": 1500, "__nontrivial__": 1500},
+            "thorough": {"moved_gradient_request_sequences": 10000, "calls_checked": 150000, "rows_checked": 800000, "values_checked": 1500000, "inactive_entries_seen": 120000, "garbage_pairs_compared": 40000, "evaluator_arrays_snapshotted": 250000, "delivered_arrays_checked": 1500000, "memo_hits": 8000, "with_filters": 10000, "with_transforms": 10000, "split_gradient_requests": 10000, "row_flags_checked": 30000, "__nontrivial__": 36000}}
 N = {"quick": 3000, "thorough": 60000}
 PERSONALITIES = ["fresh", "memo", "buffer"]
 
@@ -158,7 +158,7 @@ def gen_spec(rng):
                  "cscale": rng.uniform(0.3, 4, size=n_con).tolist() if n_con and rng.random() < 0.6 else None}
     seq = []
     for _ in range(int(rng.integers(2, 6))):
-        seq.append(str(rng.choice(["f", "fg_split", "both", "batch", "repeat_f"], p=[0.2, 0.3, 0.25, 0.15, 0.1])))
+        seq.append(str(rng.choice(["f", "fg_split", "both", "batch", "repeat_f", "g_moved"], p=[0.2, 0.25, 0.2, 0.15, 0.1, 0.1])))
     return spec, tspec, seq
 
 
@@ -229,6 +229,23 @@ def _execute(spec, tspec, seq, personality, garbage, rng_seq):
                 res = ee.calculate(x, compute_functions=False, compute_gradients=True)
                 kind = "g"
                 last = x
+            elif kind == "g_moved":
+                # a function request at another point (near, tiny or far away), then a gradient-only request at x: there are no
+                # function values for x, so the request has to be the complete combined one
+                how = int(rng_seq.integers(3))
+                sgn = rng_seq.choice([-1.0, 1.0], size=V)
+                delta = sgn * (0.9e-5 * np.abs(x) if how == 0 else (1e-13 if how == 1 else 0.37))
+                if cfg.variables.mask is not None:
+                    delta = np.where(cfg.variables.mask, delta, 0.0)
+                xprev = x - delta
+                r1 = ee.calculate(xprev, compute_functions=True, compute_gradients=False)
+                delivered.append(("f", r1, [before], xprev, [_digest(r) for r in r1]))
+                if r1[0].functions is None or not np.any(delta):
+                    continue
+                before = len(ev.calls)
+                res = ee.calculate(x, compute_functions=False, compute_gradients=True)
+                kind = "both"
+                last = x
             elif kind == "both":
                 res = ee.calculate(x, compute_functions=True, compute_gradients=True)
                 last = x
@@ -266,6 +283,7 @@ def run_case(case, obs):
     if tspec:
         obs.count("with_transforms")
     obs.feature("personality." + pers)
+    obs.count("moved_gradient_request_sequences", seq.count("g_moved"))
     obs.count("memo_hits", ev.memo_hits)
     tv, to, tc = (transforms.variables, transforms.objectives, transforms.nonlinear_constraints) if transforms else (None, None, None)
     configured = np.asarray(cfg.realizations.weights)
